@@ -330,3 +330,13 @@ def r16_5(ctx):
     fi = idx.func("Immediate.il_read")
     clears = [U(n) for n in ast.walk(fi.node) if isinstance(n, ast.Assign) and U(n.targets[0]) == "self.assign_usage" and isinstance(n.value, ast.Constant) and n.value.value is False]
     ctx.check("Immediate.il_read clears assign_usage after it consumed it", bool(clears), "self.assign_usage = False", str(clears), fn_where(idx, fi))
+
+
+@rule("R16.6", "C16", "both layouts are well-formed and report the same flags: every operand of the read / exec / write lists is initialised in the blocks both layouts share; the needs_hi / needs_pkt flags depend on the words hi / pkt only (not on the C-source comments one layout prints); a folder converts no operand it removes", min_instances=12)
+def r16_6(ctx):
+    from .c11 import needs_flags_valuation
+    from .c12 import no_conversion_of_removed_operands, r12_3
+
+    r12_3(ctx)
+    needs_flags_valuation(ctx)
+    no_conversion_of_removed_operands(ctx)
